@@ -63,7 +63,13 @@ T1 == Mk4("a", I("1"), "b", S("$merge:a"), "c", Single("$merge", S("t")), "t", M
 T2 == Mk2("$repeat", I("2"), "n", S("$\"i{$repeat}\""))
 T3 == Mk3("k", Single("v", I("1")), "r", Single("$replace", S("k")), "o", Mk2("$output", True, "w", S("$$x")))
 T4 == L(<<Single("$repeat", I("2")), S("$repeat")>>)
-BasesC19 == { <<T1>>, <<T2>>, <<T3>>, <<T1, T2>>, <<T4, T3>> }
+(* cross-document references: whole document, $path, short form; the       *)
+(* referenced document T1 itself contains a map with a `$merge` key        *)
+T5 == Mk3("a", I("1"), "c", Mk2("$merge", S("t"), "k", I("0")), "t", Single("x", I("1")))
+X1 == Mk3("t", Single("y", I("2")), "whole", Single("$replace", Single("$match", Single("a", I("1")))),
+          "part", Single("$merge", Mk2("$match", Single("a", I("1")), "$path", S("t"))))
+X2 == Mk3("t", Single("y", I("2")), "short", Single("$replace", L(<<Single("a", I("1")), S("c")>>)), "own", I("3"))
+BasesC19 == { <<T1>>, <<T2>>, <<T3>>, <<T1, T2>>, <<T4, T3>>, <<T5, X1>>, <<X2, T5>> }
 PatchesC19 == {
   Single("z", I("9")), Single("a", I("2")), Single("$repeat", I("3")),
   Single("t", Single("y", I("2"))), Single("k", Single("v", I("2"))),
